@@ -346,7 +346,9 @@ def check_run_user(ctx):
                   "; ".join(sorted(problems)), examined=len(res), construct=f"{TWRUNTEST}:{clsname}._run_user::catch-all")
 
 
-def check_run_cleanups(ctx):
+def run_cleanups_problems(ctx):
+    """AsynchronousDeferredRunTest._run_cleanups run with two registered cleanups, each returning / raising an
+    Exception / raising a BaseException -> (function, problems, paths followed).  (Shared with C02.)"""
     cls, f = _method(ctx, ADRT, "_run_cleanups")
     C1, C2 = ("wobj", "cleanup1"), ("wobj", "cleanup2")
 
@@ -387,6 +389,12 @@ def check_run_cleanups(ctx):
             problems.add("cleanups are left on the case after _run_cleanups")
     if len(seen) < 9:
         problems.add(f"only {len(seen)} of the 9 outcome combinations of two cleanups were reached")
+    return f, problems, len(res)
+
+
+def check_run_cleanups(ctx):
+    f, problems, n_res = run_cleanups_problems(ctx)
+    res = range(n_res)
     ctx.check("R-CATCH-ALL", "_run_cleanups runs every cleanup LIFO whatever the earlier ones raise, reports each failure and returns the last exception", f, not problems,
               "; ".join(sorted(problems)[:4]), examined=len(res), construct=f"{TWRUNTEST}:{ADRT}._run_cleanups::catch-all")
     from ..astutil import dotted
